@@ -36,6 +36,7 @@ type Prog struct {
 	byName     map[string]*ssa.Function
 	CG         *callgraph.Graph
 	astDecl    map[*ssa.Function]*ast.FuncDecl
+	Opaque     []opaqueRange // functions with a shape the normaliser cannot look through (opaque.go)
 }
 
 // UndecidedError aborts a run without a verdict (exit 2, never a VIOLATION).
@@ -122,6 +123,7 @@ func loadProg(repo string) *Prog {
 	}
 	p.resolveRoles()
 	p.resolveFields()
+	p.Opaque = p.computeOpaque()
 	p.inlineHelpers()
 	p.CG = vta.CallGraph(all, cha.CallGraph(prog))
 	return p
